@@ -733,6 +733,8 @@ static int do_spawn(pid_t *pidp, const char *file, const posix_spawn_file_action
 		}
 		K->probe("spawn_with_attributes");
 	}
+	// what the tool does after exec is its own business: a wrapper that ignores SIGTERM stays deaf to it whatever it inherited
+	for (auto &ti : K->sc->term_immune) if (ti.first == kind && ti.second == p.occ) { p.sigign |= 1ULL << SIGTERM; K->probe("tool_ignores_SIGTERM_itself"); }
 	for (auto &sp : K->sc->stops) if (sp.kind == kind && sp.occ == p.occ) { p.stop_at = sp.at; p.stop_len = sp.duration; }
 	ev.pid = p.pid; ev.ok = true; ev.group = p.group;
 	K->spawns.push_back(ev);
@@ -1211,7 +1213,18 @@ RunResult simulate(const Scenario &sc) {
 	bool any_failure = any_tool_failure || pipeline_failure || link_failure;
 
 	for (auto &f : K->fired) if (f == "natural:directory_executed") { viol("C17/tool-not-found-through-PATH", "the driver tried to execute a directory that an earlier PATH entry holds under the tool's name; posix_spawnp skips it and finds the tool"); break; }
-	if (K->hang && K->tty_wait && !any_failure && !K->failure_seen_by_driver) {
+	bool immune_on_tty = false;
+	for (size_t i = 1; i < K->procs.size(); i++) {
+		Proc &p = K->procs[i];
+		if (p.stray || p.state != RUNNING || !(p.sigign >> SIGTERM & 1) || p.phase != PH_READ) continue;
+		auto f0 = p.fds.find(0);
+		if (f0 != p.fds.end() && f0->second.kind == FD_TTYIN && sc.stdin_stays_open) immune_on_tty = true;
+	}
+	if (K->hang && K->tty_wait && immune_on_tty) {
+		// a tool that ignores SIGTERM by its own choice and waits for somebody to type: nothing short of SIGKILL ends it, and
+		// the property's failure modes do not include such tools - not judged
+		K->probe("run_ended_with_a_SIGTERM_deaf_tool_waiting_for_the_terminal");
+	} else if (K->hang && K->tty_wait && !any_failure && !K->failure_seen_by_driver) {
 		// a tool is waiting for somebody to type on a terminal that stays open and nothing has failed: the driver
 		// waits with it, rightly, for as long as it takes - not a hang, and nothing further to judge in this run
 		K->probe("run_ended_waiting_for_terminal_input");
